@@ -87,6 +87,30 @@ func specialCases() []Case {
 	cs = append(cs, evalCases(engA, envFamily, vals, `pf([])`, "prog:special")...)
 	cs = append(cs, evalCases(engA, envFamily, vals, `pf([[1]]) + pf([1])`, "prog:special")...)
 
+	// (e) the same polymorphic function registered twice, then another overload of that name:
+	// the index written into the tree must select the same function in the run-time table
+	sumL := hostDecl{Name: "summary", Params: []*T{tList(tVar("a"))}, Ret: tNum, Beh: sxList("cnum", sxNum(-1)), Const: val.Num(-1)}
+	sumM := hostDecl{Name: "summary", Params: []*T{tMap(tVar("k"), tVar("v"))}, Ret: tStr, Beh: sxList("cstr", sxStr("map")), Const: val.Str("map")}
+	engD := newEngine([]hostDecl{sumL, sumL, sumM})
+	for _, p := range []string{`summary(m)`, `summary(xs)`, `summary(m) + "!"`, `[summary(mn), summary(["a": 1])]`} {
+		cs = append(cs, evalCases(engD, envFamily, vals, p, "prog:special-dup-registration")...)
+	}
+	// (f) a polymorphic overload whose result contains a variable its parameters do not determine
+	wrapOpen := hostDecl{Name: "wrap", Params: []*T{tVar("a")}, Ret: tList(tVar("b")), Beh: "(ret 0)"}
+	wrapOK := hostDecl{Name: "wrap", Params: []*T{tVar("a")}, Ret: tList(tVar("a")), Beh: "(ret 0)"}
+	engW := newEngine([]hostDecl{wrapOpen, wrapOK})
+	for _, p := range []string{`len(wrap(1))`, `[wrap(1)]`, `{f: wrap(true)}`} {
+		out := evalCases(engW, envFamily, vals, p, "prog:special-open-result")
+		// only the checker's verdict is compared (the host behaviours are not type-correct)
+		if len(out) > 0 {
+			cs = append(cs, out[0])
+		}
+	}
+
+	// (g) a dynamic call site evaluated several times with different function values in the
+	// environment: every back end must call the CURRENT value of the callee expression
+	cs = append(cs, dynamicCalleeCase())
+
 	// (d) dynamic call of a lazy function value: run in a child process (the VM passes raw
 	// arguments where thunks are expected, which can crash the process)
 	c = Case{Human: `dynamic call (ho.g)(1, 2) of a lazy function value on the vm`, Tags: []string{"special:dynamic-lazy"}, Nontriv: true}
@@ -142,4 +166,65 @@ func selftestDynamicLazy() {
 	}
 	fmt.Printf("closure=%s vm=%s\n", a, b)
 	os.Exit(1)
+}
+
+func dynamicCalleeCase() Case {
+	c := Case{Human: "dynamic call (ho.f)(1, 2) compiled once, run with two different function values", Tags: []string{"special:dynamic-callee"}, Nontriv: true, Want: "ok"}
+	if guardBegin(c.Human) {
+		return crashCase(c.Human)
+	}
+	defer guardEnd()
+	first := hostDecl{Name: "pickA", Params: []*T{tNum, tNum}, Ret: tNum, Beh: "(ret 0)", RetArg: 0}
+	second := hostDecl{Name: "pickB", Params: []*T{tNum, tNum}, Ret: tNum, Beh: "(ret 1)", RetArg: 1}
+	fa, fb := first.build(), second.build()
+	eng := newEngine(nil)
+	hoT := types.Obj([]types.Field{{Name: "f", Val: fa.Type}})
+	mkEnv := func(f *val.Val) *val.Env {
+		ho := val.Obj(hoT.Obj()).Obj()
+		ho.V[0] = f
+		e := val.NewEnv()
+		e.Put("ho", ho.Vl())
+		return e
+	}
+	parsed, perr := parseSrc(`(ho.f)(1, 2)`)
+	if perr != nil {
+		c.Oracle, c.OracleID = "does not parse", "backend-divergence"
+		return c
+	}
+	d := trans.Desugar(parsed)
+	env0 := types.NewEnv()
+	env0.Put("ho", hoT)
+	func() {
+		defer func() { recover() }()
+		types.Check(d, env0.Inherit(eng.tenv))
+	}()
+	var results []string
+	for _, b := range backends[:3] {
+		res := func() (r string) {
+			defer func() {
+				if p := recover(); p != nil {
+					r = "panic: " + fmt.Sprint(p)
+				}
+			}()
+			cl := b.c(d, eng.renv)
+			out := []string{}
+			captureStdout(func() {
+				for _, f := range []*val.Val{fa, fb, fa, fb} {
+					out = append(out, cl(mkEnv(f).Inherit(eng.renv)).String())
+				}
+			})
+			return strings.Join(out, ",")
+		}()
+		results = append(results, b.name+"="+res)
+	}
+	c.Want = strings.Join(results, " ")
+	for _, r := range results[1:] {
+		if strings.SplitN(r, "=", 2)[1] != strings.SplitN(results[0], "=", 2)[1] || !strings.HasSuffix(r, "=1,2,1,2") {
+			c.Oracle, c.OracleID = "back ends disagree on a dynamic call whose callee changes between invocations (expected 1,2,1,2): "+c.Want, "backend-divergence"
+		}
+	}
+	if !strings.HasSuffix(results[0], "=1,2,1,2") {
+		c.Oracle, c.OracleID = "a dynamic call does not call the current value of its callee (expected 1,2,1,2): "+c.Want, "backend-divergence"
+	}
+	return c
 }
